@@ -322,6 +322,14 @@ impl Join {
                     columns,
                     string_pool.long_string_refs(),
                 );
+                for column_name in condition.column_names().into_iter() {
+                    if !table.has_column(column_name) {
+                        invalid_input!(
+                            "Join has no column named {:?}",
+                            column_name
+                        );
+                    }
+                }
                 let mut rows = Vec::<Vec<ValueRef>>::new();
                 for value_refs1 in rows1.iter() {
                     for value_refs2 in rows2.iter() {
@@ -362,6 +370,14 @@ impl Join {
                     columns,
                     string_pool.long_string_refs(),
                 );
+                for column_name in condition.column_names().into_iter() {
+                    if !table.has_column(column_name) {
+                        invalid_input!(
+                            "Join has no column named {:?}",
+                            column_name
+                        );
+                    }
+                }
                 let mut rows = Vec::<Vec<ValueRef>>::new();
                 for value_refs1 in rows1.iter() {
                     let mut found_any = false;
